@@ -386,7 +386,8 @@ def minify_application(ctx, progs, found_by):
                                or (isinstance(n, ast.FunctionDef) and n.returns is not None) for n in ast.walk(tree)):
                             ctx.bump('out_of_model', 'annotations')
                             continue
-                        unbound, tainted = c05.unbound_names(tree)
+                        _, tainted = c05.unbound_names(tree)
+                        unbound, _mixed = c05.bracket_names(tree)
                         treq = c05.transform_request(tree, o, set() if tainted else (unbound & set(impl_list)))
                         head, rest = treq.split(' ', 1)
                         # transform <bits> <oracle> <eligible> <module>  →  min.full <bits> <oracle> <eligible> <ren> <hoist> <module>
